@@ -4,7 +4,7 @@
 //
 // Trace (one record per line, ids are the 64-bit name hashes in decimal):
 //   case <k> <kind> n=<routers> edges=<m>
-//   node n<idx> <hash>          ids below are n<idx> for these, raw decimal hashes otherwise (0 = none)
+//   node n<idx> <hash> <name>   ids below are n<idx> for these, raw decimal hashes otherwise (0 = none)
 //   ev rup <i> | ev rdown <i> | ev up <i> <j> | ev dead <i> <j> | ev fetch <i> <j>
 //   obs <i> <dirty 0|1|x> nb=<j,j,..|-> rib=<entry;entry..|-> adv=<d/nh/cost/other;..|-> ent=<d/cost/nh;..|->
 //        entry = d/nh1/l1/nh2/l2/dirty/h=c,h=c..      (everything sorted by key)
@@ -532,7 +532,7 @@ func runCase(t *testing.T, out *bufio.Writer, r *rand.Rand, k int, kind string, 
 		}
 		fmt.Fprintf(out, "case %d %s n=%d edges=%d\n", k, kind, n, len(edges))
 		for i := range w.hash {
-			fmt.Fprintf(out, "node n%d %s\n", i, u(w.hash[i]))
+			fmt.Fprintf(out, "node n%d %s %s\n", i, u(w.hash[i]), w.names[i].String())
 		}
 		// bring-up
 		order := r.Perm(n)
@@ -628,4 +628,87 @@ func TestTrace(t *testing.T) {
 		}
 	}
 	_ = table.Vf18Entry{}
+}
+
+// TestReplay re-runs exactly the events of one case (file VERIF_OPS: the case/node/ev/chk lines of a trace).
+func TestReplay(t *testing.T) {
+	log.SetHandler(log.HandlerFunc(func(*log.Entry) error { return nil }))
+	ops, err := os.ReadFile(os.Getenv("VERIF_OPS"))
+	if err != nil {
+		t.Fatal(err)
+	}
+	f, err := os.Create(os.Getenv("VERIF_OUT"))
+	if err != nil {
+		t.Fatal(err)
+	}
+	defer f.Close()
+	out := bufio.NewWriterSize(f, 1<<20)
+	defer out.Flush()
+	synctest.Test(t, func(t *testing.T) {
+		w := &world{t: t, w: out, byHash: map[uint64]int{}}
+		idx := func(s string) int {
+			k, _ := strconv.Atoi(strings.TrimPrefix(s, "n"))
+			return k
+		}
+		started := false
+		start := func() {
+			if started {
+				return
+			}
+			started = true
+			w.n = len(w.names)
+			w.rt = make([]*dvp.Router, w.n)
+			w.nbr = make([]map[int]bool, w.n)
+			w.seq = make([]uint64, w.n)
+			for i := range w.nbr {
+				w.nbr[i] = map[int]bool{}
+			}
+		}
+		for _, line := range strings.Split(string(ops), "\n") {
+			p := strings.Fields(line)
+			if len(p) == 0 {
+				continue
+			}
+			switch p[0] {
+			case "case":
+				fmt.Fprintln(out, line)
+			case "node":
+				nm, err := enc.NameFromStr(p[3])
+				if err != nil {
+					t.Fatal(err)
+				}
+				w.byHash[nm.Hash()] = len(w.names)
+				w.names = append(w.names, nm)
+				w.hash = append(w.hash, nm.Hash())
+				fmt.Fprintf(out, "node n%d %s %s\n", len(w.names)-1, u(nm.Hash()), nm.String())
+			case "ev":
+				start()
+				switch p[1] {
+				case "rup":
+					w.evRup(idx(p[2]))
+				case "rdown":
+					w.evRdown(idx(p[2]))
+				case "up":
+					w.evUp(idx(p[2]), idx(p[3]))
+				case "dead":
+					w.evDead(idx(p[2]), idx(p[3]))
+				case "fetch":
+					w.evFetch(idx(p[2]), idx(p[3]))
+				}
+			case "chk", "chkclean":
+				start()
+				w.obsAll()
+				fmt.Fprintln(out, line)
+			}
+		}
+		fmt.Fprintf(out, "end\n")
+		for i := range w.rt {
+			if w.rt[i] != nil {
+				w.rt[i].Vf18StopNfdc()
+			}
+		}
+		if w.fail != "" {
+			fmt.Fprintf(out, "harnessfail 0 %s\n", w.fail)
+		}
+	})
 }
